@@ -36,6 +36,9 @@ func runC11(c *Ctx) {
 	c.Rule("C11.Q", "messages move only through two FIFO channels with one producer/consumer goroutine", 5)
 	c.Rule("C11.O", "order and completeness on both endpoints; request bodies are read whole; sessions forgotten only after delivery", 19)
 	c.Rule("C11.J", "header injection only adds missing keys", 7)
+	// the close frame travels through the same FIFO as the data (= C12.L): written directly it overtakes
+	// messages that were already acknowledged
+	c.Borrow(runC12, "C12.L", "C11.Q", func(k string) bool { return strings.HasPrefix(k, "Close:") || strings.HasPrefix(k, "writer:") })
 	c.Rule("C11.V", "the protocol version is read from a request header nothing has edited: the handshake header is a filtered copy (= C09.N)", 1)
 	c.Borrow(runC09, "C09.N", "C11.V", func(k string) bool { return strings.HasPrefix(k, "stripWSHeader") })
 	const pkg = ModPath + "/agent/websockets"
